@@ -119,6 +119,81 @@ Section ABFProofs.
   Lemma root_collect_Loc : forall ms r, wLoc (root_collect G r ms) = wLoc r.
   Proof. induction ms as [|m tl IH]; intros r; cbn [root_collect]; auto. now rewrite IH. Qed.
 
+  (* ---- the exchange as a transaction: whatever happens to the round, what a walker has sampled itself stays
+     recoverable from its own three grids *)
+  Lemma gsub_self : forall a, gsub G a a = g0 G.
+  Proof. intros a. rewrite <- (gl_0r G HL a) at 1. apply (gl_sub G HL). Qed.
+
+  Lemma own_prepare_finish : forall t (w x : W), wLoc x = wLoc (w_prepare G w) ->
+    forall i, own_data G (w_finish t x) i = own_data G w i.
+  Proof.
+    intros t w x E i. unfold own_data, w_finish; cbn [wG wL wLoc]. rewrite E. cbn [w_prepare wLoc].
+    rewrite gsub_self, (gl_0r G HL). reflexivity.
+  Qed.
+
+  Lemma exchange_own : forall t (ws : list W) k w w',
+    nth_error ws k = Some w -> nth_error (exchange G t ws) k = Some w' ->
+    forall i, own_data G w' i = own_data G w i.
+  Proof.
+    intros t ws k w w' Hw Hw' i. unfold exchange in Hw'.
+    destruct ws as [|r others]; [destruct k; discriminate|]. cbn [map] in Hw'.
+    destruct k as [|k]; cbn [nth_error] in Hw, Hw'.
+    - injection Hw as <-. injection Hw' as <-. apply own_prepare_finish. apply root_collect_Loc.
+    - rewrite map_map, map_map in Hw'. rewrite nth_error_map in Hw'. rewrite Hw in Hw'. cbn in Hw'.
+      injection Hw' as <-. apply own_prepare_finish. reflexivity.
+  Qed.
+
+  Theorem exchange_transaction : forall t oc (ws : list W) k w w',
+    nth_error ws k = Some w -> nth_error (exchange_partial G t oc ws) k = Some w' ->
+    (w' = w \/ nth_error (exchange G t ws) k = Some w') /\ forall i, own_data G w' i = own_data G w i.
+  Proof.
+    intros t oc ws k w w' Hw Hw'. unfold exchange_partial in Hw'.
+    rewrite nth_error_map in Hw'.
+    destruct (nth_error (combine oc (combine ws (exchange G t ws))) k) as [[o [a b]]|] eqn:E; [|discriminate].
+    cbn in Hw'. injection Hw' as <-.
+    assert (Ha : nth_error ws k = Some a /\ nth_error (exchange G t ws) k = Some b).
+    { clear Hw. remember (exchange G t ws) as xs eqn:X. clear X. revert oc ws xs E.
+      induction k as [|k IH]; intros oc ws xs E.
+      - destruct oc, ws, xs; try discriminate. cbn in E. injection E as _ <- <-. split; reflexivity.
+      - destruct oc, ws, xs; try discriminate. cbn in E. apply (IH oc ws xs E). }
+    destruct Ha as [Ha Hb]. rewrite Hw in Ha. injection Ha as <-.
+    destruct o; cbn.
+    - split; [right; exact Hb|]. apply (exchange_own t ws k w b Hw Hb).
+    - split; [left; reflexivity|]. reflexivity.
+  Qed.
+
+  (* a round that every walker aborts changes nothing at all; one that every walker commits is the exchange *)
+  Theorem exchange_all_aborted : forall t (ws : list W),
+    exchange_partial G t (repeat Aborted (length ws)) ws = ws.
+  Proof.
+    intros t ws. unfold exchange_partial.
+    assert (L : length (exchange G t ws) = length ws).
+    { unfold exchange. destruct ws as [|r o]; [reflexivity|]. cbn [map]. cbn [length]. now rewrite !map_length. }
+    revert L. generalize (exchange G t ws) as xs. induction ws as [|w tl IH]; intros xs L; [reflexivity|].
+    destruct xs as [|x xs]; [discriminate|]. cbn. f_equal. apply IH. now injection L.
+  Qed.
+
+  (* walkers that all start from the same input data I and exchange before sampling anything hold I, once *)
+  Lemma map_repeat_ : forall (X Y : Type) (f : X -> Y) x (k : nat), map f (repeat x k) = repeat (f x) k.
+  Proof. induction k as [|k IH]; cbn [repeat map]; [reflexivity|]. now rewrite IH. Qed.
+
+  Theorem input_once : forall (I : grid (A:=A)) t t' (n : nat) k w,
+    nth_error (exchange G t' (repeat (w_init_input G I t) n)) k = Some w -> forall j, wG w j = I j /\ wL w j = I j.
+  Proof.
+    intros I t t' n k w Hk j. apply nth_error_In in Hk. unfold exchange in Hk.
+    destruct n as [|n]; [destruct Hk|]. cbn [repeat map] in Hk. rewrite map_repeat_ in Hk.
+    set (d := w_prepare G (w_init_input G I t)) in Hk.
+    assert (Hd : forall j, wL d j = g0 G). { intro j0. unfold d; cbn. apply gsub_self. }
+    assert (HG : forall j, wG (root_collect G d (map wL (repeat d n))) j = I j).
+    { intro j0. rewrite root_collect_G. rewrite map_repeat_.
+      assert (E : forall m j1, msum (repeat (wL d) m) j1 = g0 G).
+      { induction m as [|m IH]; intros j1; cbn [repeat msum]; [reflexivity|]. rewrite IH, Hd. apply (gl_0r G HL). }
+      rewrite E. unfold d; cbn. apply (gl_0r G HL). }
+    cbn [map] in Hk. destruct Hk as [<-|Hk].
+    - cbn [w_finish wG wL]. split; apply HG.
+    - rewrite map_map in Hk. apply in_map_iff in Hk. destruct Hk as (x & <- & _). cbn [w_finish w_receive wG wL]. split; apply HG.
+  Qed.
+
   (* the order in which the deltas reach replica 0 does not matter *)
   Lemma msum_perm : forall ms ms' j, Permutation ms ms' -> msum ms j = msum ms' j.
   Proof.
@@ -480,6 +555,23 @@ Lemma czar_alias_witness_ok :
     e_z r 1 = 0 /\ e_gz r 1 = 1.
 Proof. eexists. eexists. split; [reflexivity|]. vm_compute. auto. Qed.
 
+(* replica_share() before it was made a transaction: three walkers, walkers 0 and 1 sample once, exchange, both sample
+   once more; in the next round replica 0 receives the delta of walker 1 and then fails on walker 2 (dead).  What replica 0
+   can recover as its own data is then 3 samples at address 0; it sampled 2. *)
+Definition peer_death_witness : list (ev (A:=Z)) :=
+  [ESample 0%nat 0 1; ESample 1%nat 0 1; EExchange 1; ESample 0%nat 0 1; ESample 1%nat 0 1].
+
+Lemma peer_death_old_refuted :
+  exists r w, nth_error (run Zgrp false peer_death_witness (init Zgrp 3)) 0 = Some w /\
+    root_fail_old Zgrp 1 (run Zgrp false peer_death_witness (init Zgrp 3)) = Some r /\
+    own_data Zgrp w 0 = 2 /\ own_data Zgrp r 0 <> 2.
+Proof. eexists. eexists. split; [reflexivity|]. split; [reflexivity|]. vm_compute. split; [reflexivity|discriminate]. Qed.
+
+(* inputPrefix with sharing enabled by a script, before the repair: two walkers read one sample at address 0 and exchange *)
+Lemma input_old_refuted :
+  exists w, nth_error (exchange Zgrp 1 (repeat (w_init_input_old Zgrp (one_at 0) 0) 2)) 0 = Some w /\ wG w 0 = 2.
+Proof. eexists. split; [reflexivity|]. vm_compute. reflexivity. Qed.
+
 Definition script_restart_witness : list (ev (A:=Z)) := [ESample 0%nat 0 1; ESample 1%nat 0 1; EExchange 1].
 
 Lemma script_restart_refuted :
@@ -551,6 +643,31 @@ Proof.
       now rewrite (Hws x0 Hx0). }
   intros Hk. apply nth_error_In in Hk. unfold opes_run in Hk.
   apply (Hgen rounds (repeat [] n) []); auto. intros x Hx. now apply repeat_spec in Hx.
+Qed.
+
+(* ... so position r*n+p of every walker's list is the kernel that walker p contributed in round r, and there are no
+   other positions: every kernel of every walker of every round is held exactly once, by everybody *)
+Lemma concat_nth_uniform : forall {K : Type} (n : nat) (rounds : list (list K)),
+  Forall (fun c => length c = n) rounds ->
+  length (concat rounds) = (length rounds * n)%nat /\
+  forall r p c, nth_error rounds r = Some c -> (p < n)%nat -> nth_error (concat rounds) (r * n + p) = nth_error c p.
+Proof.
+  intros K n rounds H. induction H as [|c0 tl Hc Htl IH].
+  - split; [reflexivity|]. intros [|r] p c E; discriminate.
+  - destruct IH as [IHl IHn]. split.
+    + cbn [concat length]. rewrite app_length, IHl, Hc. reflexivity.
+    + intros [|r] p c E Hp; cbn [nth_error] in E.
+      * injection E as <-. cbn [concat]. change (0 * n + p)%nat with p. apply nth_error_app1. now rewrite Hc.
+      * cbn [concat]. rewrite nth_error_app2 by (rewrite Hc; cbn; lia).
+        rewrite Hc. replace (S r * n + p - n)%nat with (r * n + p)%nat by (cbn; lia). now apply IHn.
+Qed.
+
+Lemma opes_every_kernel_once : forall {K : Type} (rounds : list (list K)) (n k : nat) (l : list K),
+  Forall (fun c => length c = n) rounds -> nth_error (opes_run rounds n) k = Some l ->
+  length l = (length rounds * n)%nat /\
+  forall r p c, nth_error rounds r = Some c -> (p < n)%nat -> nth_error l (r * n + p) = nth_error c p.
+Proof.
+  intros K rounds n k l HF Hk. rewrite (opes_same_list rounds n k l Hk). now apply concat_nth_uniform.
 Qed.
 
 (* the running sum of weights of every walker = its initial value plus every contribution of every walker of
